@@ -74,6 +74,11 @@ impl RunCtx {
         }
         let b = make();
         self.artefacts_out.insert(name.to_string(), b.clone());
+        if self.trace {
+            use base64::Engine;
+            println!("A {} {}", name, base64::engine::general_purpose::STANDARD.encode(&b));
+            let _ = std::io::stdout().flush();
+        }
         b
     }
 
@@ -190,6 +195,8 @@ fn out_to_json(idx: u64, o: &RunOut, art: &BTreeMap<String, Vec<u8>>) -> Value {
 
 fn new_ctx(p: &dyn Property, tier: Tier, seed: u64, idx: u64) -> RunCtx {
     let id = p.meta().id;
+    // every run starts from the same SDK-side randomness (uuids, salts): hook H8
+    c2pa::verif::set_random_seed(Some(crate::rng::run_seed(seed ^ 0x5eed, id, tier.name(), idx)));
     RunCtx {
         prop: id,
         tier,
@@ -288,8 +295,9 @@ pub fn worker(p: &dyn Property, tier: Tier, seed: u64, from: u64, to: u64, step:
                     .unwrap_or_default();
                 let mut o = RunOut::default();
                 o.evals = 1;
-                let short: String = msg.chars().take(80).collect();
-                o.violate(0, &format!("panic:{}", short), "G1 no panic", json!({ "panic": msg }));
+                let lp = crate::sdk::LAST_PANIC.lock().map(|g| g.clone()).unwrap_or_default();
+                let loc = lp.split('|').next().unwrap_or("?").to_string();
+                o.violate(0, &format!("panic:{}", loc), "G1 no panic", json!({ "panic": msg, "at": lp }));
                 (o, BTreeMap::new())
             }
         };
@@ -369,7 +377,25 @@ fn spawn_worker(
     w: usize,
     tx: mpsc::Sender<Msg>,
 ) -> std::process::Child {
+    spawn_worker2(exe, id, tier, seed, from, to, step, deadline, w, tx, false)
+}
+
+#[allow(clippy::too_many_arguments)]
+fn spawn_worker2(
+    exe: &std::path::Path,
+    id: &str,
+    tier: Tier,
+    seed: u64,
+    from: u64,
+    to: u64,
+    step: u64,
+    deadline: u64,
+    w: usize,
+    tx: mpsc::Sender<Msg>,
+    trace: bool,
+) -> std::process::Child {
     let mut child = Command::new(exe)
+        .args(if trace { vec!["--trace"] } else { vec![] })
         .args([
             "worker",
             id,
@@ -432,6 +458,42 @@ fn load_known() -> Vec<(String, String, String)> {
     out
 }
 
+/// Re-run a crashed run index in trace mode; returns (last sub started, artefacts) if it dies again.
+fn localise_crash(exe: &std::path::Path, id: &str, tier: Tier, seed: u64, idx: u64) -> (Option<u64>, Value, bool) {
+    let (tx, rx) = mpsc::channel::<Msg>();
+    let mut child = spawn_worker2(exe, id, tier, seed, idx, idx + 1, 1, 600, 0, tx, true);
+    let mut last_sub = None;
+    let mut arts = serde_json::Map::new();
+    let start = Instant::now();
+    let mut died = false;
+    loop {
+        match rx.recv_timeout(Duration::from_secs(2)) {
+            Ok(Msg::Line(_, l)) => {
+                if let Some(rest) = l.strip_prefix("T ") {
+                    last_sub = rest.split_whitespace().nth(1).and_then(|s| s.parse().ok());
+                } else if let Some(rest) = l.strip_prefix("A ") {
+                    let mut it = rest.splitn(2, ' ');
+                    if let (Some(k), Some(v)) = (it.next(), it.next()) {
+                        arts.insert(k.to_string(), Value::String(v.to_string()));
+                    }
+                }
+            }
+            Ok(Msg::Eof(..)) => {
+                let st = child.wait().ok();
+                died = !st.map(|s| s.success()).unwrap_or(false);
+                break;
+            }
+            Err(_) => {
+                if start.elapsed() > Duration::from_secs(400) {
+                    let _ = child.kill();
+                    died = true;
+                }
+            }
+        }
+    }
+    (last_sub, Value::Object(arts), died)
+}
+
 /// Parent: run the whole check, write evidence, print verdict lines, return exit code.
 pub fn check(p: &dyn Property, tier: Tier, seed: u64) -> i32 {
     let meta = p.meta();
@@ -454,6 +516,7 @@ pub fn check(p: &dyn Property, tier: Tier, seed: u64) -> i32 {
     // per worker: (current S idx, time of S)
     let mut cur: Vec<Option<(u64, Instant)>> = vec![None; nw];
     let mut finished = vec![false; nw];
+    let mut killed = vec![false; nw];
     for w in 0..nw {
         children.push(Some(spawn_worker(
             &exe, meta.id, tier, seed, w as u64, total, nw as u64, budget, w, tx.clone(),
@@ -519,7 +582,9 @@ pub fn check(p: &dyn Property, tier: Tier, seed: u64) -> i32 {
                                 let mut viol = viol.clone();
                                 if let Value::Object(m) = &mut viol {
                                     m.insert("idx".into(), json!(idx));
-                                    m.insert("artefacts".into(), v["artefacts"].clone());
+                                    if !m.contains_key("artefacts") {
+                                        m.insert("artefacts".into(), v["artefacts"].clone());
+                                    }
                                     m.insert("mask".into(), v["mask"].clone());
                                     m.insert("schedule".into(), v["schedule"].clone());
                                 }
@@ -537,18 +602,35 @@ pub fn check(p: &dyn Property, tier: Tier, seed: u64) -> i32 {
                 let status = children[w].as_mut().and_then(|c| c.wait().ok());
                 children[w] = None;
                 let ok = status.map(|s| s.success()).unwrap_or(false);
-                if let (false, Some((idx, _))) = (ok, cur[w]) {
+                if let (false, Some((idx, _)), true) = (ok, cur[w], killed[w]) {
+                    // killed by the hang watchdog (already recorded): continue after it
+                    killed[w] = false;
+                    cur[w] = None;
+                    agg.runs_done += 1;
+                    let next = idx + nw as u64;
+                    if next < total {
+                        let spent = t0.elapsed().as_secs();
+                        children[w] = Some(spawn_worker(
+                            &exe, meta.id, tier, seed, next, total, nw as u64,
+                            budget.saturating_sub(spent).max(1), w, tx.clone(),
+                        ));
+                    } else {
+                        finished[w] = true;
+                    }
+                } else if let (false, Some((idx, _))) = (ok, cur[w]) {
                     // died inside run idx: observation
                     agg.crashes += 1;
                     use std::os::unix::process::ExitStatusExt;
                     let sig = status.and_then(|s| s.signal());
                     let code = status.and_then(|s| s.code());
                     agg.runs_done += 1;
+                    let (sub, arts, again) = localise_crash(&exe, meta.id, tier, seed, idx);
                     agg.violations.push(json!({
-                        "idx": idx, "sub": Value::Null,
+                        "idx": idx, "sub": sub,
                         "fingerprint": format!("crash:{}", sig.map(|s| format!("signal{s}")).unwrap_or_else(|| format!("exit{}", code.unwrap_or(-1)))),
                         "clause": "G2 no process abort",
-                        "detail": { "signal": sig, "exit_code": code },
+                        "detail": { "signal": sig, "exit_code": code, "reproduced_in_trace_mode": again },
+                        "artefacts": arts,
                         "crash": true,
                     }));
                     cur[w] = None;
@@ -576,9 +658,13 @@ pub fn check(p: &dyn Property, tier: Tier, seed: u64) -> i32 {
         for w in 0..nw {
             if let Some((idx, since)) = cur[w] {
                 if since.elapsed() > hang_limit {
+                    if killed[w] {
+                        continue;
+                    }
                     if let Some(c) = children[w].as_mut() {
                         let _ = c.kill();
                     }
+                    killed[w] = true;
                     agg.violations.push(json!({
                         "idx": idx, "sub": Value::Null, "fingerprint": "hang",
                         "clause": "G3 bounded steps", "detail": { "wall_s": since.elapsed().as_secs() }, "crash": true,
@@ -763,6 +849,10 @@ pub fn replay(p: &dyn Property, path: &str) -> i32 {
     let out = p.run(&mut ctx);
     let meta = p.meta();
     let mut hit = false;
+    if let Some(e) = &out.harness_error {
+        println!("HARNESS-ERROR in replay: {e}");
+        return 2;
+    }
     for (sub, viol) in &out.violations {
         println!(
             "replayed violation sub={sub} fingerprint={} clause={} detail={}",
